@@ -12,7 +12,8 @@ MAX_BATCH = 24 * 1000 * 1000
 
 
 def _shard_job(args):
-    (shard_no, items, recorder, rec_opts, run_dir, modules, trace_module, batch_name, wrap, timeout, specname) = args
+    (shard_no, items, recorder, rec_opts, run_dir, modules, trace_module, batch_name, wrap, timeout, specname,
+     extra_files) = args
     import importlib
     mod, fn = recorder.rsplit('.', 1)
     rec = getattr(importlib.import_module(mod), fn)
@@ -41,7 +42,9 @@ def _shard_job(args):
             head = json.dumps(wrap([]), separators=(',', ':'))
             assert head.endswith('"traces":[]}')
             body = head[:-3] + body + '}'
-        tlc.prepare(d, modules, {batch_name: body})
+        files = dict(extra_files or {})
+        files[batch_name] = body
+        tlc.prepare(d, modules, files)
         res = tlc.run(d, trace_module, 'SPECIFICATION %s\n' % specname, workers=1, timeout=timeout, heap='3g')
         s1 = res.printed('SUMMARY')
         if not s1:
@@ -94,12 +97,12 @@ class _Wrap:
 
 
 def validate(items, recorder, rec_opts, run_dir, modules, trace_module, batch_name='batch.json',
-             wrap_extra=None, nshards=None, timeout=1500, specname='Spec'):
+             wrap_extra=None, nshards=None, timeout=1500, specname='Spec', extra_files=None):
     """items: list of JSON-able work items (each must lead to one trace with a unique 'id')."""
     nshards = nshards or NCPU
     parts = chunks(items, nshards)
     wrap = _Wrap(**wrap_extra) if wrap_extra is not None else None
-    jobs = [(i, part, recorder, rec_opts, run_dir, modules, trace_module, batch_name, wrap, timeout, specname)
+    jobs = [(i, part, recorder, rec_opts, run_dir, modules, trace_module, batch_name, wrap, timeout, specname, extra_files)
             for i, part in enumerate(parts)]
     tot = {'n': 0, 'accepted': 0, 'rejected_n': 0, 'rejected': [], 'states': 0, 'generated': 0,
            'samples': [], 'nontrivial': 0}
